@@ -12,9 +12,18 @@ steps run, and which inputs give error / panic.
                                                           -> ok <pt> | err <e> | panic
   c17 wrappedlen <n>                                      -> ok <len>
 `fixed` = repaired `Read` (bounds checks), `prefix` = `Read` before the repair.
+
+Pipeline of server/partition.go (Model/SealPipe.lean over the regenerated Gen/SealPipe.lean,
+harness/server/zz_verif_c17pipe_test.go); the codec's answers are supplied by the harness:
+  c17 pipe-sites                                          -> ok <ctx>:<guarded><seals><errSkips>,… | <func>:<guarded><reads><errReports><errEnds><deliversRead>,…
+  c17 pipe-ingest <site> <enc> <value> <sealed|->         -> ok <stored> | drop | err no-site
+        (<sealed> = what the real Seal returned for this message, `-` = Seal failed)
+  c17 pipe-sub <loop> <enc> <stored>:<pt|!> …             -> ok <delivered> … | waiting|error|silent
+        (<pt> = what the real Read returns for <stored>, `!` = Read fails)
 -/
 import Liftbridge.Base
 import Liftbridge.Model.Seal
+import Liftbridge.Model.SealPipe
 
 namespace Liftbridge.Driver
 open Liftbridge
@@ -60,6 +69,44 @@ def c17 (toks : List String) : String :=
     | some chk, some b, some n, some u, some k, some o, some pt =>
       sealShow toHex (Seal.readWith chk (oracle n none u k o [] pt) b)
     | _, _, _, _, _, _, _ => "bad-op"
+  | ["pipe-sites"] =>
+    let b := fun (x : Bool) => if x then "1" else "0"
+    let i := Gen.SealPipe.ingestSites.map fun s => s!"{s.ctx}:{b s.guarded}{b s.seals}{b s.errSkips}"
+    let d := Gen.SealPipe.deliverSites.map fun s =>
+      s!"{s.func}:{b s.guarded}{b s.reads}{b s.errReports}{b s.errEnds}{b s.deliversRead}"
+    "ok " ++ ",".intercalate i ++ " | " ++ ",".intercalate d
+  | ["pipe-ingest", site, enc, v, sealed] =>
+    match site.toNat?, bit enc, fromHex v, fromHexOpt sealed with
+    | some i, some enc, some v, some sealed =>
+      match Gen.SealPipe.ingestSites[i]? with
+      | none => "err no-site"
+      | some s =>
+        match SealPipe.ingest s enc { doSeal := fun _ _ => sealed, doRead := fun _ => none } 0 v with
+        | some x => "ok " ++ toHex x
+        | none => "drop"
+    | _, _, _, _ => "bad-op"
+  | "pipe-sub" :: loopIdx :: enc :: toks =>
+    let parse : String → Option (Bytes × Option Bytes) := fun t =>
+      match t.splitOn ":" with
+      | [s, p] =>
+        match fromHex s with
+        | none => none
+        | some s => if p = "!" then some (s, none) else (fromHex p).map fun p => (s, some p)
+      | _ => none
+    match loopIdx.toNat?, bit enc, toks.mapM parse with
+    | some i, some enc, some table =>
+      match Gen.SealPipe.deliverSites[i]? with
+      | none => "err no-site"
+      | some d =>
+        let codec : SealPipe.Codec :=
+          { doSeal := fun _ _ => none, doRead := fun b => (table.lookup b).join }
+        let o := SealPipe.subscribe d enc codec (table.map Prod.fst)
+        let e := match o.ending with
+          | .waiting => "waiting"
+          | .error => "error"
+          | .silent => "silent"
+        "ok " ++ " ".intercalate (o.delivered.map toHex) ++ " | " ++ e
+    | _, _, _ => "bad-op"
   | ["wrappedlen", n] =>
     match n.toNat? with
     | some n => s!"ok {Seal.kwpWrappedLen n}"
